@@ -139,7 +139,29 @@ fn crafted(b: &mut u64, seed: u64, out: &mut Out, rng: &mut Rng, rounds: u64) {
         let n = ids.len();
         let mut sim = Sim::new(seed ^ (r * 31 + 5), NetCfg { lat_min_ms: 5, lat_max_ms: 25, ..Default::default() });
         sim.record = true;
-        let fnet = FakeNet::install(&mut sim, &ids, Box::new(|_, _, _| Reply::Default));
+        // every third round the answers also list JUNK: an entry with an id right next to the target at the unspecified address
+        // (0.0.0.0, on the port every peer uses or on another one). A lookup asks them like any other close entry (nobody
+        // answers); what it has sent there must not make it skip the real peers
+        let junk = r % 3 == 2;
+        let all: Vec<([u8; 20], SocketAddrV4)> = ids.iter().enumerate().map(|(i, id)| (*id, SocketAddrV4::new(fake_ip(i), 6881))).collect();
+        let mut listed = all.clone();
+        if junk {
+            // (one entry: the accumulator keeps one insecure entry per IP)
+            for (k, port) in [(1u8, if r % 2 == 0 { 6881u16 } else { 7000 })] {
+                let mut id = target;
+                id[19] ^= 0x40 | k;
+                id[18] ^= k;
+                listed.push((id, SocketAddrV4::new(std::net::Ipv4Addr::new(0, 0, 0, 0), port)));
+            }
+        }
+        let nodes = crate::krpc::compact_nodes(&listed);
+        let fnet = FakeNet::install(&mut sim, &ids, Box::new(move |me, m, w| {
+            let q = m.q.clone().unwrap_or_default();
+            if junk && (q == "find_node" || q == "get" || q == "get_peers" || q == "get_signed_peers") {
+                return Reply::One(lookup_reply(&nodes, me, m, w, &[], q != "find_node"), 5);
+            }
+            Reply::Default
+        }));
         // the client only knows one of them; everybody lists everybody
         let c = sim.add_node(NodeOpts::client(private_ip(3), &[fnet.bootstrap()[r as usize % n].clone()]));
         sim.run_for(2500);
@@ -201,14 +223,22 @@ fn chain(b: &mut u64, seed: u64, out: &mut Out, rng: &mut Rng, rounds: u64) {
         sim.record = true;
         let all: Vec<([u8; 20], SocketAddrV4)> = ids.iter().enumerate().map(|(i, id)| (*id, SocketAddrV4::new(fake_ip(i), 6881))).collect();
         let (val2, sk2) = (val.clone(), sk.clone());
+        let junk = r % 2 == 1;
+        // (an id that is BEP42-valid for 0.0.0.0: the entry is not pushed behind the secure peers)
+        let junk_id = crypto::bep42_id(std::net::Ipv4Addr::new(0, 0, 0, 0), rng.id());
         let policy: Policy = Box::new(move |me, m, wi| {
             let q = m.q.clone().unwrap_or_default();
             let on_target = m.target() == Some(target);
-            let listed: Vec<([u8; 20], SocketAddrV4)> = if on_target {
+            let mut listed: Vec<([u8; 20], SocketAddrV4)> = if on_target {
                 all.iter().skip(me.idx + 1).take(w).cloned().collect()
             } else {
                 all.iter().take(3).cloned().collect()
             };
+            // every other chain: the first two peers also list a JUNK entry at the unspecified address (0.0.0.0) on the port all
+            // peers use; the lookup asks it early (nobody answers) and goes on learning real peers on that port afterwards
+            if junk && on_target && me.idx < 2 {
+                listed.push((junk_id, SocketAddrV4::new(std::net::Ipv4Addr::new(0, 0, 0, 0), 6881)));
+            }
             let nodes = krpc::compact_nodes(&listed);
             let b = match q.as_str() {
                 "find_node" => lookup_reply(&nodes, me, m, wi, &[], false),
@@ -432,7 +462,7 @@ pub fn run(args: &Args) -> i32 {
         }
     }
     if only.is_none() {
-        crafted(&mut b, seed, &mut out, &mut rng, if thorough { 60 } else { 10 });
+        crafted(&mut b, seed, &mut out, &mut rng, if thorough { 90 } else { 15 });
         chain(&mut b, seed, &mut out, &mut rng, if thorough { 140 } else { 28 });
         mixed(&mut b, seed, &mut out, &mut rng, if thorough { 90 } else { 18 });
         slowtree(&mut b, seed, &mut out, &mut rng, if thorough { 600 } else { 80 });
